@@ -961,7 +961,29 @@ class Executor:
             return TupleV([self._at(x, pos) for x in v.items])
         return v
 
+    def _list_len_nf(self, l):
+        """length of a list value as a normal form (None if unknown): concrete lists, opaque lists, and slices
+        L[a:], L[:-b], L[a:-b] of them with constant a >= 0, b >= 0"""
+        if isinstance(l, TupleV) or (isinstance(l, ListV) and not l.opaque):
+            return NF.const(len(l.items))
+        if not isinstance(l, ListV):
+            return None
+        so = getattr(l, "slice_of", None)
+        if so is not None:
+            base, sl = so
+            n = self._list_len_nf(base)
+            if n is None or not isinstance(sl.step, NoneV):
+                return None
+            lo = 0 if isinstance(sl.lo, NoneV) else (sl.lo.nf.as_const() if isinstance(sl.lo, Num) else None)
+            hi = 0 if isinstance(sl.hi, NoneV) else (sl.hi.nf.as_const() if isinstance(sl.hi, Num) else None)
+            if lo is None or hi is None or lo < 0 or hi > 0:
+                return None
+            return n - lo + hi  # hi <= 0 counts elements dropped at the end (assumes the list is at least that long)
+        return app("listlen", l.lid, getattr(l, "version", 0))
+
     def _seq_len(self, p):
+        if isinstance(p, (ListV, TupleV)):
+            return self._list_len_nf(p)
         if isinstance(p, Num) and p.shape is not None and len(p.shape) >= 1:
             return lift(p.shape[0])
         if isinstance(p, RangeV):
